@@ -421,14 +421,34 @@ func (s *Service) serviceRequestWithTarget(w http.ResponseWriter, r *http.Reques
 		return
 	}
 
-	simYield("service.gate", r)
-	if s.handlePausedAndStoppedRequests(w, r) {
+	for {
+		simYield("service.gate", r)
+		if s.handlePausedAndStoppedRequests(w, r) {
+			return
+		}
+
+		simYield("service.afterGate", r)
+		lb := s.loadBalancerForRequest(r)
+		target, req, err := lb.claimTarget(r)
+
+		if s.pauseController.GetState() != PauseStateRunning {
+			// The service was paused or stopped after this request passed the
+			// check above. Give the claim back and wait like any other request
+			// that arrives while the service is paused.
+			if err == nil {
+				target.endInflightRequest(req)
+			}
+			continue
+		}
+
+		if err != nil {
+			SetErrorResponse(w, r, http.StatusServiceUnavailable, nil)
+			return
+		}
+
+		target.SendRequest(w, req)
 		return
 	}
-
-	simYield("service.afterGate", r)
-	lb := s.loadBalancerForRequest(r)
-	lb.ServeHTTP(w, r)
 }
 
 func (s *Service) shouldRedirectToHTTPS(r *http.Request) bool {
